@@ -80,6 +80,10 @@ def run(tier):
     # a dealer whose contribution to the key is the identity (zero constant term, forged proof of knowledge)
     dealers += [{"kind": "dealercheat", "proto": pr, "n": 3, "t": 1, "byz": b, "alt": "zero", "sched": vlib.seed() + 400 + i}
                 for i, (pr, b) in enumerate((pr, b) for pr in ("frost-keygen", "taproot-keygen", "cmp-keygen") for b in ("a", "b", "c"))]
+    # a peer whose messages are all well-formed but computed from inconsistent inputs: the honest side's round fails from
+    # the inside (Finalize returns an error) - that path must end as cleanly as a refused message
+    dealers += [{"kind": "doernercheat", "proto": "doerner-sign", "n": 2, "t": 1, "byz": b, "rule": r_, "sched": vlib.seed() * 3 + 700 + k}
+                for k, (r_, b) in enumerate((r_, b) for r_ in ("share", "public", "ot", "kinv") for b in ("a", "b"))]
     st = adv.run_family(rep, wd, plan(quick), PROP, vlib.seed(), {"C05"}, shards=14, extra_scen=dealers)
     rep.cov.update({"distinct_nontrivial": st["distinct"], "states": st["states"], "transitions": st["transitions"],
                     "traces_validated_against_impl": st["traces"], "trace_lines": st["lines"], "catalogue_cases": st["catalogue"],
